@@ -36,11 +36,11 @@ MANIFEST = {
             'facts (augmented assignment in place on ndarray, rebinding on scalars) modelled, not verified. '
             'Known finding KF-C18-1: a shrunk object caches a REFERENCE to its original under "unshrunk".',
 }
-RULE = ('a case is one history: an initial object (10 small objects over Scalar/Boolean/Vector/Matrix/Pair, shapeless '
+RULE = ('a case is one history: an initial object (20 small objects over Scalar/Boolean/Vector/Vector3/Pair/Matrix/Matrix3/Quaternion/Polynomial, shapeless '
         'and shaped, scalar and array masks, with and without derivatives, one read-only) and a list of operations '
         'from a finite alphabet (item assignment, every in-place arithmetic/logical operator with number, ndarray and '
         'object arguments, derivative insertion/deletion, unit changes, as_readonly, shrink/unshrink, and the cached '
-        'queries); breadth-first over a compact alphabet to depth 3 (quick) / 4 (thorough), plus random histories of '
+        'queries); breadth-first over a compact alphabet to depth 3 (quick) / 4 (thorough; depth 3 for the six objects of the additional classes), plus random histories of '
         'length up to 30 over the full alphabet; non-trivial = contains a mutator after a cached query; distinct = '
         'distinct request line')
 ASSUMPTIONS = ['a mutator step is one control-flow path of the regenerated table on which the mutator returns (or '
@@ -54,6 +54,7 @@ ASSUMPTIONS = ['a mutator step is one control-flow path of the regenerated table
 TRUSTED_EXTRA = ['translator harness/c18_py2lean.py (Python `ast` -> event paths) and the syntax subset it accepts',
                  'sys.settrace line events identify the executed statements']
 
+DEPTH3_ONLY = ('M3', 'Q2', 'P2', 'Pr2', 'S3dd', 'S23bm')
 GEN_FILE = os.path.join(C.LEAN, 'PMV', 'Gen', 'EventPaths.lean')
 
 
@@ -110,9 +111,10 @@ def oracle(case):
 def gen_cases(rng, tier):
     thorough = tier == 'thorough'
     cases = []
-    depth = 4 if thorough else 3
     for oname in OBJECTS:
         alpha = COMPACT[oname]
+        # depth 4 in the thorough tier, except for the six objects of the additional classes (time budget)
+        depth = 4 if (thorough and oname not in DEPTH3_ONLY) else 3
         for d in range(1, depth + 1):
             for h in itertools.product(alpha, repeat=d):
                 if d == depth and not is_query(h[-1]):
